@@ -20,32 +20,32 @@ CHECKS = {
   note="Trusted: RefSem (harness/internal/machine/vm/zz_ast.go), engine, solver. Zero-amount postings and splitting of adjacent postings are not compared.",
   ref="DESIGN §5 C08"),
  "C12": dict(
-  text="Bounded symbolic model checking for crashes: every path of every NumGen program and of 35 odd-but-valid programs (save from non-sources, repeated balance() lookups, negative arithmetic, missing/extra/ill-formed variables, bad metadata) with symbolic amounts and balances; any Go panic or exhausted instruction budget on a feasible path is a violation with solver-produced inputs, replayed natively; the compiled Program is executed twice and must behave identically. ZZ_C12Alloc: one AllocateResource step from resource tables of boundary sizes 0..65537 (value of the new constant symbolic): refused with the table unchanged, or the 16-bit address denotes the entry just added.",
+  text="Bounded symbolic model checking for crashes: every path of every NumGen program and of 35 odd-but-valid programs (save from non-sources, repeated balance() lookups, negative arithmetic, missing/extra/ill-formed variables, bad metadata) with symbolic amounts and balances; any Go panic or exhausted instruction budget on a feasible path is a violation with solver-produced inputs, replayed natively; the compiled Program is executed twice and must behave identically. ZZ_C12Alloc: one AllocateResource step from resource tables of boundary sizes 0..65537 (value of the new constant symbolic): refused with the table unchanged, or the 16-bit address denotes the entry just added. ZZ_C12Err: CompileErrorList.Error (what the handlers render for COMPILATION_FAILED) never panics for script texts of 0..4 arbitrary bytes out of {LF, CR, TAB, space, letter} with the error at the end of input or at a one-letter token.",
   note="Arbitrary byte strings into the ANTLR lexer/parser are outside the claim (not encodable). Trusted: engine, solver, native compiler.",
   ref="DESIGN §5 C12"),
  "C09": dict(
-  text="Bounded symbolic model checking through the real Commander: 552 posting patterns (all 1- and 2-posting combinations over {world,a,b,c}x{USD/2,EUR}, 8 three-posting patterns) with symbolic amounts and balances run Postings.Validate, TxToScriptData, the native compiler, the symbolic VM, locker, batcher and in-memory store; the committed transaction and the persisted log are compared posting by posting with the request, rejection must leave nothing behind, and acceptance must coincide with in-order coverage. ZZ_C09Bulk: bulks of 2..3 posting-mode elements go through v2.ProcessBulk (JSON model, amounts symbolic inside the text, presence of metadata/reference/timestamp arbitrary per element); each element must reach the engine with exactly its own script, variables, metadata, reference, timestamp and key.",
-  note="The single-transaction HTTP handlers are outside the claim. Trusted: engine, solver, InMemoryStore as the durable store.",
+  text="Bounded symbolic model checking through the real Commander: 552 posting patterns (all 1- and 2-posting combinations over {world,a,b,c}x{USD/2,EUR}, 8 three-posting patterns) with symbolic amounts and balances run Postings.Validate, TxToScriptData, the native compiler, the symbolic VM, locker, batcher and in-memory store; the committed transaction and the persisted log are compared posting by posting with the request, rejection must leave nothing behind, and acceptance must coincide with in-order coverage. ZZ_C09Bulk: bulks of 2..3 posting-mode elements go through v2.ProcessBulk (JSON model, amounts symbolic inside the text, presence of metadata/reference/timestamp arbitrary per element); each element must reach the engine with exactly its own script, variables, metadata, reference, timestamp and key. ZZ_C09Http: v1 and v2 postTransaction with a posting-mode JSON body (1..2 postings, amounts arbitrary integers in the text) make one engine call carrying exactly TxToScriptData of the body; v1 refuses negative amounts up front.",
+  note="chi routing and middlewares are outside the claim. Trusted: engine, solver, InMemoryStore as the durable store.",
   ref="DESIGN §5 C09"),
  "C10": dict(
-  text="Bounded symbolic model checking of RevertTransaction through the real Commander: 11 original posting patterns (1-5 postings) x forced/unforced x with/without an intermediate spend, symbolic non-negative amounts and balances; TransactionData.Reverse alone on 0..7 postings; 2-3 racing reverts under every schedule within the pre-emption budget; revert postings = reversed original with swapped ends, reverted flag, balances restored when nothing moved, unforced revert refused with insufficient funds and never overdrawing, second revert refused.",
+  text="Bounded symbolic model checking of RevertTransaction through the real Commander: 11 original posting patterns (1-5 postings) x forced/unforced x with/without an intermediate spend, symbolic non-negative amounts and balances; TransactionData.Reverse alone on 0..7 postings; 2-3 racing reverts under every schedule within the pre-emption budget; the v1/v2 revert handlers with an arbitrary id and an arbitrary force/disableChecks value, and bulks of 2..3 revert elements (force absent/true/false per element) against a recording backend; revert postings = reversed original with swapped ends, reverted flag, balances restored when nothing moved, unforced revert refused with insufficient funds and never overdrawing, second revert refused.",
   note="Trusted: engine, solver, InMemoryStore.",
   ref="DESIGN §5 C10"),
  "C13": dict(
-  text="Bounded symbolic model checking of the log round trip: every log kind the commander can write (7 write kinds incl. delete-metadata on accounts and transactions; metadata of one entry, nil, empty, two entries) is produced by the real write path with symbolic ids and amounts, encoded by the rope-level JSON model (interpreting the repository's MarshalJSON/UnmarshalJSON methods), decoded by ChainedLog.UnmarshalJSON/HydrateLog, re-encoded (text equality decided on ropes) and its hash recomputed from the round-tripped entry and its predecessor.",
+  text="Bounded symbolic model checking of the log round trip: every log kind the commander can write (7 write kinds incl. delete-metadata on accounts and transactions; metadata of one entry, nil, empty, two entries; also right after a preview of the same request) is produced by the real write path with symbolic ids and amounts, encoded by the rope-level JSON model (interpreting the repository's MarshalJSON/UnmarshalJSON methods), decoded by ChainedLog.UnmarshalJSON/HydrateLog, re-encoded (text equality decided on ropes) and its hash recomputed from the round-tripped entry and its predecessor.",
   note="encoding/json is a model (validated on witness replays), sha256 is an injective token; arbitrary Unicode metadata and RFC3339Nano formatting of arbitrary instants are outside the claim; transaction ids < 2^62.",
   ref="DESIGN §5 C13"),
  "C14": dict(
-  text="Two-world differential, bounded symbolic model checking: for each of 7 write kinds, [preview w; real w; real r] against [real w; real r] from the same symbolic pre-state (last log id L, last transaction id N, balance) — preview persists and publishes nothing and consumes no id, answers what the real write answers, and every later response, id, log entry and event is identical in both worlds. ZZ_C14Flag (api/v1 and api/v2): getCommandParameters, with net/url.ParseQuery interpreted, puts a request in dry-run mode exactly when the preview=/dryRun= value — an arbitrary alphanumeric string of 1..4 bytes — is one of the preview spellings (true or yes in any letter case, 1).",
+  text="Two-world differential, bounded symbolic model checking: for each of 7 write kinds, [preview w; real w; real r] against [real w; real r] from the same symbolic pre-state (last log id L, last transaction id N, balance) — preview persists and publishes nothing and consumes no id, answers what the real write answers, and every later response, id, log entry and event is identical in both worlds; the same differential with an idempotency key that was already used (the preview must answer what the real retry answers). ZZ_C14Flag (api/v1 and api/v2): getCommandParameters, with net/url.ParseQuery interpreted, puts a request in dry-run mode exactly when the preview=/dryRun= value — an arbitrary alphanumeric string of 1..4 bytes — is one of the preview spellings (true or yes in any letter case, 1).",
   note="The preview spellings are those both API versions accept at the pinned commit (documented boolean plus legacy yes). Sequential requests; restarts after a preview are covered by the symbolic pre-state (Init only reads the tail). Trusted: engine, solver, InMemoryStore.",
   ref="DESIGN §5 C14"),
  "C16": dict(
-  text="Bounded symbolic model checking of event emission: per write kind x {real, preview, repeated through an idempotency key} every event — decoded from the JSON payload the real bus.ledgerMonitor hands to a recording publisher — is matched against a persisted log entry (transaction ids symbolic; for reverts which transaction is reverted and which reverts), previews and refused writes publish nothing, every persisted change is published at least once.",
+  text="Bounded symbolic model checking of event emission: per write kind x {real, preview, repeated through an idempotency key} every event — decoded from the JSON payload the real bus.ledgerMonitor hands to a recording publisher — is matched against a persisted log entry (transaction ids symbolic; for reverts which transaction is reverted and which reverts), previews and refused writes publish nothing, every persisted change is published at least once; ZZ_C16Conc: 1-2 concurrent writes whose client may give up at an arbitrary moment — at rest persisted entries and published events are in bijection.",
   note="publish.NewMessage is modelled (payload = JSON model of the real EventMessage; uuid and otel context constant); watermill transport is not executed. Concurrent emission is not part of this check.",
   ref="DESIGN §5 C16"),
  "C18": dict(
-  text="Bounded symbolic model checking of v2.ProcessBulk against a recording backend: bulks of 1..3 elements, the action of each element (four known, one unknown) and the error class enumerated, success/failure of each element and continueOnFailure as solver variables; executed calls (order, idempotency keys), one result per processed element at its position with the matching type, early stop and the failure signal are compared with the in-order reference.",
-  note="Element payloads are concrete well-formed JSON decoded by the JSON model; the inputs are Booleans and small choices, so the engine's forking does the exploration and the solver decides feasibility and the final formulas. bulkHandler's HTTP plumbing is not executed.",
+  text="Bounded symbolic model checking of v2.ProcessBulk against a recording backend: bulks of 1..3 elements, the action of each element (four known, one unknown) and the error class enumerated, success/failure of each element and continueOnFailure as solver variables; executed calls (order, idempotency keys), one result per processed element at its position with the matching type, early stop and the failure signal are compared with the in-order reference; the same through bulkHandler (JSON body, continueOnFailure parameter, status code, JSON answer); two bulk requests in a row (the second must run on its own keys and payloads); per-element arguments of ADD/DELETE_METADATA elements.",
+  note="Element payloads are concrete well-formed JSON decoded by the JSON model; the inputs are Booleans and small choices, so the engine's forking does the exploration and the solver decides feasibility and the final formulas. chi routing is not executed; sync.Pool is modelled as always reusing.",
   ref="DESIGN §5 C18"),
  "C19": dict(
   text="Solver verdict for the middleware: api.ReadOnly wrapped around a flag-setting handler is executed with the request method as an arbitrary byte string of length 0..8; the handler is reached iff the method is GET, HEAD or OPTIONS (z3 supplies an offending method otherwise). Complemented by structural SSA checks (not solver verdicts): api.NewRouter installs ReadOnly on the root mux under the readOnly flag before any route, and no handler registered under GET/HEAD/OPTIONS or an any-method registration in v1/v2 reaches CreateTransaction/RevertTransaction/SaveMeta/DeleteMetadata in the call graph.",
@@ -56,7 +56,7 @@ CHECKS = {
   note="bun's escaping of bound arguments is a library contract and not encoded (but the number of ? bytes of the clause, which bun substitutes quoted or not, must not depend on client text); backslash is assumed literal inside SQL quotes (standard_conforming_strings). The scanner in the harness is the oracle.",
   ref="DESIGN §5 C20"),
  "C02": dict(
-  text="Bounded symbolic model checking with schedules as decisions: the real Commander, DefaultLocker, Referencer, Batcher and job.Runner run on engine threads with a Yield before every statement (overlay instrumentation); two concurrent sends from one account — the source named literally, by an account variable, or through meta(), one or both clients possibly giving up (context cancelled by a separate thread at an arbitrary moment) — with symbolic opening balance and amounts; after quiescence the persisted log is replayed in order and every posting must be covered at its position (z3 finds 'both accepted and a1+a2 > balance' otherwise), and every Lock call must carry the resolved source in its write set.",
+  text="Bounded symbolic model checking with schedules as decisions: the real Commander, DefaultLocker, Referencer, Batcher and job.Runner run on engine threads with a Yield before every statement (overlay instrumentation); two concurrent sends from one account — the source named literally, by an account variable, or through meta(), each send either a fixed amount or send [ASSET *], one or both clients possibly giving up (context cancelled by a separate thread at an arbitrary moment) — with symbolic opening balance and amounts; after quiescence the persisted log is replayed in order and every posting must be covered at its position (z3 finds 'both accepted and a1+a2 > balance' otherwise), and every Lock call must carry the resolved source in its write set.",
   note="Bound: pre-emption budget 1 (thorough 2) at statement boundaries of the instrumented files, switches forced by blocking resolved deterministically (lowest thread id); each Store call atomic; InMemoryStore stands for the database. Counterexample schedules are replayed natively by a schedule controller (goroutine gating at the same yields).",
   ref="DESIGN §5 C02"),
  "C05": dict(
@@ -64,7 +64,7 @@ CHECKS = {
   note="Bound: pre-emption budget 1 (thorough 2) at statement boundaries of the instrumented files, switches forced by blocking resolved deterministically (lowest thread id); each Store call atomic; InMemoryStore stands for the database. Counterexample schedules are replayed natively by a schedule controller (goroutine gating at the same yields).",
   ref="DESIGN §5 C05"),
  "C06": dict(
-  text="Bounded symbolic model checking with schedules, one crash and an InsertLogs fault as decisions/variables: at the instant a write returns success its marker must already be in the persisted log (asserted inside the client thread), acknowledged writes and log entries are in bijection at quiescence, failed or cut-off writes leave at most nothing/one entry, no entry without a request; an injected InsertLogs failure stops the process without acknowledging. ZZ_C06Batch: every composition of batches — Batcher.nextBatch from 0..5 pending items with arbitrary values, maximum batch size 1..3, late arrivals between the cuts: each item in exactly one batch, in order, no batch above the maximum, a cut batch never altered, each callback once.",
+  text="Bounded symbolic model checking with schedules, one crash and an InsertLogs fault as decisions/variables: at the instant a write returns success its marker must already be in the persisted log (asserted inside the client thread), acknowledged writes and log entries are in bijection at quiescence, failed or cut-off writes leave at most nothing/one entry, no entry without a request; an injected InsertLogs failure stops the process without acknowledging. The injected failure is a generic error, a wrapped context.Canceled or DeadlineExceeded (a decision). ZZ_C06Batch: every composition of batches — Batcher.nextBatch from 0..5 pending items with arbitrary values, maximum batch size 1..3, late arrivals between the cuts: each item in exactly one batch, in order, no batch above the maximum, a cut batch never altered, each callback once.",
   note="Bound: pre-emption budget 1 (thorough 2) at statement boundaries of the instrumented files, switches forced by blocking resolved deterministically (lowest thread id); each Store call atomic; InMemoryStore stands for the database. Counterexample schedules are replayed natively by a schedule controller (goroutine gating at the same yields). A failing InsertLogs persists nothing (one database transaction per batch).",
   ref="DESIGN §5 C06"),
  "C07": dict(
@@ -76,11 +76,11 @@ CHECKS = {
   note="Bound: pre-emption budget 1 (thorough 2) at statement boundaries of the instrumented files, switches forced by blocking resolved deterministically (lowest thread id); each Store call atomic; InMemoryStore stands for the database. Counterexample schedules are replayed natively by a schedule controller (goroutine gating at the same yields).",
   ref="DESIGN §5 C11"),
  "C15": dict(
-  text="Bounded symbolic model checking of the lock manager alone: 14 populations of 2-3 requests with read/write sets over two accounts, optionally one request cancelled by a separate thread at an arbitrary moment; every schedule with at most 1 (thorough 2) pre-emptions at statement boundaries of lock.go and linked_list.go, all blocking switches and select choices explored; exclusion when Lock returns, progress and no leftover lock or queued intent at quiescence; 6 staged-release populations in which holders release one at a time: whenever the system is at rest, every pending request conflicts with a current holder.",
+  text="Bounded symbolic model checking of the lock manager alone: 14 populations of 2-3 requests with read/write sets over two accounts, optionally one request cancelled by a separate thread at an arbitrary moment; every schedule with at most 1 (thorough 2) pre-emptions at statement boundaries of lock.go and linked_list.go, all blocking switches and select choices explored; read sets of up to two accounts; exclusion when Lock returns, progress and no leftover lock or queued intent at quiescence; 6 staged-release populations in which holders release one at a time: whenever the system is at rest, every pending request conflicts with a current holder.",
   note="The inputs are schedules and cancellation moments (decisions); the solver's part is feasibility. Counterexample schedules are replayed natively by the schedule controller.",
   ref="DESIGN §5 C15"),
  "C17": dict(
-  text="Bounded symbolic model checking of bunpaginate over an abstract ordered table: for collections of 0..4 rows with arbitrary increasing ids, every page size 1..n+1 and both orders, UsingColumn is followed through `next` until hasMore is false (each row exactly once, in order) and back through `previous` (the page before), every cursor being decoded again with UnmarshalCursor; UsingOffset's one-step law (page contents count, hasMore, next/previous offsets) is decided for arbitrary offset < 2^31 (bun keeps OFFSET as int32) and page size <= MaxPageSize; every filter tree of depth <= 2 over {$match,$lt,$and,$or,$not} put into a cursor is decoded to a builder rendering the same clause; cursors of the transactions/accounts/logs listings with filters are encoded, decoded and must build the same WHERE clause.",
+  text="Bounded symbolic model checking of bunpaginate over an abstract ordered table: for collections of 0..4 rows with arbitrary increasing ids, every page size 1..n+1 and both orders, UsingColumn is followed through `next` until hasMore is false (each row exactly once, in order) and back through `previous` (the page before; from there `next` must lead back and `previous` one page further), every cursor being decoded again with UnmarshalCursor; UsingOffset's one-step law (page contents count, hasMore, next/previous offsets) is decided for arbitrary offset < 2^31 (bun keeps OFFSET as int32) and page size <= MaxPageSize; every filter tree of depth <= 2 over {$match,$lt,$and,$or,$not} put into a cursor is decoded to a builder rendering the same clause; cursors of the transactions/accounts/logs listings with filters are encoded, decoded and must build the same WHERE clause.",
   note="*bun.SelectQuery is modelled as an ordered relation (Where/OrderExpr/Offset/Limit/Scan); bun's SQL generation and PostgreSQL are outside the claim; natively the replays run against a fake database/sql driver that parses the statements bun emits. reflect is answered from go/types; JSON/base64 are models.",
   ref="DESIGN §5 C17"),
 }
